@@ -57,7 +57,11 @@ StepOf(e) ==
                ELSE {x \in (cur.ogx \cup (IF e.ev = "ExpireFetch" THEN {Ent(e.e)} ELSE {})) : x \in ObsOg(e) /\ x \notin iss}
         tfx == IF matches # {} THEN (CHOOSE m \in matches : TRUE).st.tfx
                ELSE {x \in (cur.tfx \cup (IF e.ev = "ExpirePending" THEN {Ent(e.e)} ELSE {})) : x \in ObsTf(e)}
-        st2 == [tf |-> ObsTf(e), tfx |-> tfx, og |-> ObsOg(e), ogx |-> ogx, range |-> e.range, far |-> e.far]
+        \* the responsible range is an INPUT of the fetcher: the clauses of the following steps read the range it was last TOLD,
+        \* not the one it says it has (a fetcher that does not take up a range it is handed would agree with itself);
+        \* what it says it has still goes into the conformance comparison above (drift)
+        toldRange == IF e.ev = "SetRange" THEN e.rg ELSE cur.range
+        st2 == [tf |-> ObsTf(e), tfx |-> tfx, og |-> ObsOg(e), ogx |-> ogx, range |-> toldRange, far |-> e.far]
     IN [x |-> [base EXCEPT !.r = [st |-> st2, issued |-> iss, failed |-> ToSet(e.failed)], !.kh = newkh],
         newkh |-> newkh, conform |-> matches # {}]
 
